@@ -97,6 +97,8 @@ impl Sym {
 pub enum W2Mon {
     C05,
     C11,
+    /// truthfulness of FDL status replies (second half of C12)
+    C12R,
 }
 
 #[derive(Clone, Debug)]
@@ -133,7 +135,7 @@ impl W2Cfg {
             period_div: v["period_div"].as_i64().unwrap(),
             alphabet,
             prefix: v["prefix"].as_array().unwrap().iter().map(Sym::from_json).collect(),
-            mon: if v["mon"] == "C11" { W2Mon::C11 } else { W2Mon::C05 },
+            mon: if v["mon"] == "C11" { W2Mon::C11 } else if v["mon"] == "C12R" { W2Mon::C12R } else { W2Mon::C05 },
             apps: v["apps"].as_u64().unwrap_or(0) as u8,
         }
     }
@@ -192,6 +194,21 @@ pub struct W2State {
     pub verbose: bool,
     pub trace_seen: usize,
     pub accepted_tokens: u32,
+    pub c12r: C12RMon,
+}
+
+#[derive(Clone, Debug, Default, PartialEq, Eq)]
+pub struct C12RMon {
+    /// last telegram the peer delivered: (frame, scaled end, station was in ring before, PS before)
+    pub last_delivery: Option<(rc::RFrame, i64, bool, u8)>,
+    pub cur_rotation: Vec<(u8, u8)>,
+    pub prev_rotation: Option<Vec<(u8, u8)>>,
+    pub identical: u32,
+    pub last_token: Option<(u8, u8)>,
+    /// two identical consecutive rotations were seen at some point since going online (validity latches)
+    pub ever_identical: bool,
+    pub claimed: bool,
+    pub answered: bool,
 }
 
 impl W2State {
@@ -227,6 +244,7 @@ impl W2State {
             verbose,
             trace_seen: 0,
             accepted_tokens: 0,
+            c12r: C12RMon::default(),
         };
         s.poll();
         for sym in cfg.prefix.clone() {
@@ -311,7 +329,86 @@ impl W2State {
                 if self.cfg.mon == W2Mon::C11 {
                     self.c11_station_tx(&tx);
                 }
+                if self.cfg.mon == W2Mon::C12R {
+                    self.c12r_station_tx(&tx);
+                }
             }
+        }
+    }
+
+    fn c12r_station_tx(&mut self, tx: &crate::bus::Tx) {
+        let ts = self.cfg.ts;
+        let slot = self.cfg.slot_bits as i64 * BIT;
+        let f = match rc::decode(&tx.bytes) {
+            rc::RDec::Frame(f, _) => f,
+            _ => return,
+        };
+        if let rc::RFrame::Token { da, sa } = &f {
+            if *da == ts && *sa == ts {
+                self.c12r.claimed = true;
+            }
+        }
+        if !f.is_response() {
+            // the station transmitted something else in between: the reply timing is not judged any more
+            if let Some((_, end, _, _)) = self.c12r.last_delivery.as_mut() {
+                *end = i64::MAX / 4;
+            }
+            return;
+        }
+        let (state, da) = match &f {
+            rc::RFrame::Data { fc, da, sa, du, dsap, ssap } if *sa == ts && du.is_empty() && dsap.is_none() && ssap.is_none() => ((fc >> 4) & 3, *da),
+            o => {
+                self.report("c12.reply.shape", format!("unexpected response telegram {}", o.short()));
+                return;
+            }
+        };
+        let (req, req_end, in_ring_before, ps_before) = match self.c12r.last_delivery.clone() {
+            Some(x) => x,
+            None => {
+                self.report("c12.reply.unsolicited", format!("status reply {} although the last telegram on the bus was not a request", f.short()));
+                return;
+            }
+        };
+        if !(req.is_fdl_status_req() && req.da() == Some(ts)) {
+            self.report("c12.reply.to_request_for_another_station", format!("status reply {} after {}", f.short(), req.short()));
+            return;
+        }
+        if self.c12r.answered {
+            self.report("c12.reply.twice", format!("second reply to {}", req.short()));
+            return;
+        }
+        self.c12r.answered = true;
+        if Some(da) != req.sa() {
+            self.report("c12.reply.wrong_destination", format!("reply to #{da} for a request from {:?}", req.sa()));
+            return;
+        }
+        if req_end < i64::MAX / 8 && tx.start - req_end > slot + self.bus.rate {
+            self.report("c12.reply.after_slot_time", format!("reply started {} bit times after the request", (tx.start - req_end) / BIT));
+            return;
+        }
+        ctx().witness(["c12_reply_slave", "c12_reply_not_ready", "c12_reply_ready", "c12_reply_in_ring"][state as usize]);
+        match state {
+            3 if !in_ring_before => self.report("c12.reply.in_ring_while_listening", "reports 'master in ring' although it was not in the ring".into()),
+            2 if in_ring_before => self.report("c12.reply.ready_while_in_ring", "reports 'ready' although it is in the ring".into()),
+            1 if in_ring_before => self.report("c12.reply.not_ready_while_in_ring", "reports 'not ready' although it is in the ring".into()),
+            0 => self.report("c12.reply.claims_to_be_slave", "reports station type 'slave'".into()),
+            2 => {
+                if req.sa() != Some(ps_before) {
+                    self.report("c12.reply.ready_to_non_predecessor", format!("reports 'ready' to #{:?} but its registered predecessor is #{ps_before}", req.sa()));
+                } else if !self.c12r.ever_identical && !self.c12r.claimed {
+                    // classify the known case: one full rotation followed by a repeated wrap-around pass
+                    let single_wrap = self.c12r.cur_rotation.is_empty() && self.c12r.last_token.map(|(sa, da)| da <= sa).unwrap_or(false);
+                    let sig = if single_wrap { "c12.reply.ready_after_one_rotation_plus_repeated_wraparound_pass" } else { "c12.reply.ready_before_two_identical_rotations" };
+                    self.report(sig, format!("reports 'ready' but has not seen two identical rotations yet (last rotation {:?})", self.c12r.prev_rotation));
+                }
+            }
+            1 => {
+                let cyc = self.c12r.prev_rotation.as_ref().map(|r| r.len() >= 2 && r.windows(2).all(|w| w[0].1 == w[1].0) && r.last().unwrap().1 == r[0].0 && r.iter().all(|(sa, da)| *sa != ts && *da != ts)).unwrap_or(false);
+                if cyc && self.c12r.identical >= 2 && req.sa() == Some(ps_before) && self.c12r.cur_rotation.is_empty() {
+                    self.report("c12.reply.not_ready_after_identical_rotations", format!("reports 'not ready' to its predecessor although {} identical rotations were seen", self.c12r.identical + 1));
+                }
+            }
+            _ => {}
         }
     }
 
@@ -334,6 +431,45 @@ impl W2State {
         if self.cfg.mon == W2Mon::C11 {
             self.c11_before_delivery(frame, t_send, bytes.len());
         }
+        if self.cfg.mon == W2Mon::C12R {
+            let end = self.bus.scaled(t_send) + bytes.len() as i64 * 11 * BIT;
+            match frame {
+                Some(f) => {
+                    let ps = self.station.inspect_token_ring().previous_station();
+                    if f.is_fdl_status_req() && f.da() == Some(self.cfg.ts) {
+                        self.c12r.last_delivery = Some((f.clone(), end, self.station.is_in_ring(), ps));
+                        self.c12r.answered = false;
+                    } else if let Some((_, e, _, _)) = self.c12r.last_delivery.as_mut() {
+                        // other traffic after the request: timing of a late reply is not judged
+                        *e = i64::MAX / 4;
+                    }
+                    if let rc::RFrame::Token { da, sa } = f {
+                        // a pass by the station that also sent the previous token (a retry, or the next try
+                        // after a failed pass) belongs to the same rotation; rotations are compared by the
+                        // sequence of passing stations (the LAS is built from the senders)
+                        let is_retry = sa != da && self.c12r.last_token.map(|t| t.0) == Some(*sa);
+                        self.c12r.last_token = Some((*sa, *da));
+                        if *da <= 125 && *sa <= 125 && !is_retry {
+                            self.c12r.cur_rotation.push((*sa, *da));
+                            if *da <= *sa {
+                                let cur = std::mem::take(&mut self.c12r.cur_rotation);
+                                let senders = |r: &Vec<(u8, u8)>| r.iter().map(|x| x.0).collect::<Vec<u8>>();
+                                if self.c12r.prev_rotation.as_ref().map(senders) == Some(senders(&cur)) {
+                                    self.c12r.ever_identical = true;
+                                }
+                                if self.c12r.prev_rotation.as_ref() == Some(&cur) {
+                                    self.c12r.identical += 1;
+                                } else {
+                                    self.c12r.identical = 0;
+                                }
+                                self.c12r.prev_rotation = Some(cur);
+                            }
+                        }
+                    }
+                }
+                None => {}
+            }
+        }
         self.bus.transmit(1, t_send, bytes);
         self.trace_seen = self.bus.trace.len();
     }
@@ -353,7 +489,15 @@ impl W2State {
                     _ => unreachable!(),
                 };
                 let e_us = self.bus.quiet_from_us();
-                let t_send = self.now.max(e_us + self.gap_us(g));
+                let mut t_send = self.now.max(e_us + self.gap_us(g));
+                if self.cfg.mon == W2Mon::C12R {
+                    // a conforming requester leaves the addressed station its slot time to answer
+                    if let Some((req, end, _, _)) = &self.c12r.last_delivery {
+                        if req.is_fdl_status_req() && req.da() == Some(self.cfg.ts) && !self.c12r.answered {
+                            t_send = t_send.max(self.bus.us_ceil(*end) + self.slot_us + 3 * self.p_us);
+                        }
+                    }
+                }
                 let mark = self.bus.trace.len();
                 while self.now + self.p_us < t_send {
                     self.now += self.p_us;
@@ -422,6 +566,7 @@ impl W2State {
                     self.dead = true;
                 }
                 self.c11 = C11Mon::default();
+                self.c12r = C12RMon::default();
                 true
             }
             Sym::SetOnline => {
@@ -654,7 +799,7 @@ impl W2State {
         b.extend_from_slice(&(v.end_token_hold_time.total_micros() - self.now).clamp(-1, ttr).to_le_bytes());
         b.push((v.token_time == Some(v.last_token_time)) as u8);
         b.extend_from_slice(&(v.next_application as u32).to_le_bytes());
-        b.extend_from_slice(format!("{:?}", self.station.inspect_token_ring()).as_bytes());
+        b.extend_from_slice(format!("{:?}{:?}", self.station.inspect_token_ring(), self.station.inspect_token_ring().verif_last_witnessed_sender()).as_bytes());
         self.bus.fingerprint_into(self.now, &mut b);
         match &self.apps {
             Apps::Unit | Apps::Zero => {}
@@ -668,6 +813,12 @@ impl W2State {
             b.extend_from_slice(format!("{}|{}|{:?}|{:?}|{}|{:?}", m.holder, rel(m.holder_since), m.offers, m.pass.as_ref().map(|(x, n, e, h)| (*x, *n, rel(*e), *h)), rel(m.last_activity_end), m.heard_from_successor).as_bytes());
             b.extend_from_slice(&rel(m.prev_activity_end).to_le_bytes());
             b.push(m.extra_offer as u8);
+        }
+        if self.cfg.mon == W2Mon::C12R {
+            let m = &self.c12r;
+            b.extend_from_slice(format!("{:?}|{:?}|{:?}|{}|{}|{}", m.last_delivery.as_ref().map(|(f, e, r, p)| (f.short(), (self.bus.scaled(self.now) - e).clamp(-1, 300 * BIT), *r, *p)), m.cur_rotation, m.prev_rotation, m.identical.min(3), m.claimed, m.answered).as_bytes());
+            b.push(m.ever_identical as u8);
+            b.extend_from_slice(format!("{:?}", m.last_token).as_bytes());
         }
         fnv64(&b)
     }
